@@ -36,18 +36,19 @@ Proof. exact repo_signature_compiles. Qed.
 
 (* for every sign run (any number of + and -, blanks anywhere), every non-empty decimal digit string and every continuation
    that is not one more decimal digit: the value is sign * positional value, exactly the literal and at most one following
-   blank are consumed, the level is restored.  (Excluded: a register right after the constant -- known finding.) *)
+   blank are consumed, the level is restored; after that blank the next token is left untouched and unexpanded.
+   (Excluded: a register right after the constant multiplies it -- kept for 5\mycount, known finding.) *)
 Theorem C05_read_integer_dec_partial : forall sr d ds rest lvl0,
   Forall (digit_tok tex_dec) (d :: ds) ->
   ends_run (lvl0 - 1) tex_dec rest ->
-  no_register_next (lvl0 - 1) (seq_rest (lvl0 - 1) true rest) ->
+  no_register_next (seq_rest (lvl0 - 1) true rest) ->
   read_integer true (print_signs sr ++ (d :: ds) ++ rest) lvl0 =
-  Ok (sign_value sr * pos_value 10 (codes (d :: ds))) (peek (lvl0 - 1) (seq_rest (lvl0 - 1) true rest)) lvl0.
+  Ok (sign_value sr * pos_value 10 (codes (d :: ds))) (seq_rest (lvl0 - 1) true rest) lvl0.
 Proof. exact read_integer_dec. Qed.
 
 (* the excluded case does fail on the faithful Model: 3\cnta reads 15 and consumes \cnta *)
 Theorem C05_read_integer_dec_refuted :
-  exists rest, read_integer true ([Ch 12 51] ++ rest) 0 <> Ok 3 (peek (-1) (seq_rest (-1) true rest)) 0.
+  exists rest, read_integer true ([Ch 12 51] ++ rest) 0 <> Ok 3 (seq_rest (-1) true rest) 0.
 Proof. exact read_integer_register_after_decimal_refuted. Qed.
 
 Theorem C05_read_integer_oct : forall sr ds rest lvl0,
@@ -219,8 +220,7 @@ Proof. exact conforms_reads. Qed.
    dimensions as exact rationals, strings with blanks stripped, list items and dictionary pairs in order), exactly the call is
    consumed, the enable level is restored.
    Excluded (see [conforms]): str/list/dict contents with groups or macros (known finding str-of-group and expansion not
-   modelled); int/float/dimen arguments that are not exactly one literal; a brace or control sequence directly after a Number
-   argument (known finding); `l` after fil/fill; subtypes of list/dict other than none/str; dict values that are empty or
+   modelled); int/float/dimen arguments that are not exactly one literal; a register directly after a Number argument (known finding: it multiplies the constant); `l` after fil/fill; subtypes of list/dict other than none/str; dict values that are empty or
    contain `=`; label/id/ref/idref/url (casts with side effects on the document); XTok, Args, any. *)
 Theorem C05_parse_binds_typed_partial : forall args s b s',
   tcall args s b s' ->
